@@ -169,6 +169,12 @@ def run(tier):
     for tok in (ncarried if tier == "thorough" else r.sample(ncarried, min(len(ncarried), 4))):
         s_ = r.choice(["Glc", "Gal", "Man"])
         lf.append((f"2-N-{tok}-{s_}", f"{s_}2{tok}"))
+    # bridge notation on a position that bears an amine of the sugar itself: <p>NAc there is the N-acyl, like <p>Ac
+    amines = {"Neu": [5], "Per": [4], "Bac": [2, 4], "Leg": [5, 7], "Pse": [5, 7], "Aci": [5, 7], "Fus": [5], "Mur": [2], "Vio": [4]}
+    for s_, ps in amines.items():
+        for tok in ("Ac", "Gc"):
+            lf.append(("".join([s_] + [f"{p_}N{tok}" for p_ in ps]), "".join([s_] + [f"{p_}{tok}" for p_ in ps])))
+            lf.append((f"{s_}{ps[0]}N{tok}", f"{s_}{ps[0]}{tok}"))
     lf = [(a_, b_) for a_, b_ in lf if orc.drv.call("accepts", a_) == "1" and orc.drv.call("accepts", b_) == "1"]
     flat = sorted(set(x for c_ in lf for x in c_))
     lo = dict(zip(flat, chem.convert_all(flat)))
@@ -180,7 +186,7 @@ def run(tier):
         stats["long_form"] += 1
         report.case(a_, True)
         if not x or not orc.same(x, y):
-            report.fail({"site": "reactor", "kind": "long-form-differs", "token": a_.split("-")[2]},
+            report.fail({"site": "reactor", "kind": "long-form-differs", "token": (a_.split("-") + ["", "", a_])[2]},
                         {"long_form": a_, "compact_form": b_, "results": [x, y],
                          "problem": "the long notation of a modification does not give the molecule of the compact token"})
     orc.close()
